@@ -407,6 +407,13 @@ func (jenny RawTypes) disjunctionFromJSON(context languages.Context, typeDef ast
 		}
 
 		objectRef := disjunction.DiscriminatorMapping[discriminator]
+		// the mapping only holds type names: the branch knows the package
+		for _, branch := range disjunction.Branches {
+			if branch.IsRef() && branch.AsRef().ReferredType == objectRef {
+				objectRef = jenny.typeFormatter.formatFullyQualifiedRef(branch.AsRef(), false)
+				break
+			}
+		}
 		decodingMap += fmt.Sprintf(`"%s": %s, `, discriminator, objectRef)
 		branchTypes = append(branchTypes, fmt.Sprintf("%s.Type[%s]", typingPkg, objectRef))
 	}
